@@ -111,7 +111,12 @@ pub fn check_pos_rt(ctx: &mut Ctx, p: &Pos, b: &Board) {
     check_pos_mode(ctx, p, b, 0)
 }
 
-/// mode 0: round trips + null; 1: + strings of occupied sources and one empty probe; 2: + all strings
+pub fn check_pos_noprobe(ctx: &mut Ctx, p: &Pos, b: &Board) {
+    check_pos_mode(ctx, p, b, 3)
+}
+
+/// mode 0: round trips + null; 1: + strings of occupied sources and one empty probe; 2: + all
+/// strings; 3: like 1 without the empty probe
 pub fn check_pos_mode(ctx: &mut Ctx, p: &Pos, b: &Board, mode: u8) {
     let full_scan = mode == 2;
     ctx.states += 1;
@@ -155,10 +160,10 @@ pub fn check_pos_mode(ctx: &mut Ctx, p: &Pos, b: &Board, mode: u8) {
         for (s, f, t, pr) in u.iter() {
             check_string(ctx, p, b, s, *f, *t, *pr, &pseudo, &legal, true);
         }
-    } else if mode == 1 {
+    } else if mode == 1 || mode == 3 {
         // strings whose source square is occupied, plus the lowest empty square as a probe
         // (an empty source is refused before anything else is looked at)
-        let probe = (0..64usize).find(|&f| p.b[f] == EMPTY);
+        let probe = if mode == 3 { None } else { (0..64usize).find(|&f| p.b[f] == EMPTY) };
         for f in 0..64usize {
             if p.b[f] == EMPTY && Some(f) != probe {
                 continue;
@@ -204,9 +209,14 @@ pub fn run(run: &mut Run) {
     let sel = if thorough {
         Sel { m3: true, ep: Some(true), castle: Some(true), promo: Some(true), reach: Some(3), pin2: Some(4), ..Default::default() }
     } else {
-        Sel { m3: true, ep: Some(false), ep_spread_only: true, castle: Some(false), promo: Some(false), pin2: Some(2), ..Default::default() }
+        Sel { ep: Some(false), ep_spread_only: true, castle: Some(false), promo: Some(false), ..Default::default() }
     };
     run_universes(run, &sel, DISAGREE, &check_pos);
+    if !thorough {
+        // the two largest families: occupied-source strings without the empty-source probe
+        let big = Sel { m3: true, pin2: Some(2), ..Default::default() };
+        run_universes(run, &big, DISAGREE, &check_pos_noprobe);
+    }
     // round trips of every semilegal move (and the null refusals) on the deeper REACH tier
     let selrt = Sel { reach: Some(if thorough { 4 } else { 3 }), ..Default::default() };
     run.notes.push("the deepest REACH tier checks the write/read round trip of every semilegal move only".into());
